@@ -207,11 +207,11 @@ def run_cases(pid, tag, header, cases, checker, shard=400, timeout=900):
         os.makedirs(REPLAY, exist_ok=True)
         shutil.copy(path, keep)
         raise CoqError('cases file %s failed (copy at %s):\n%s' % (path, keep, out[-3000:]))
-      m = re.search(r'=\s*\(\s*(\d+)\s*,\s*(\[.*?\]|nil)\s*\)', out, re.S)
+      m = re.search(r'=\s*\(\s*(\d+)(?:%nat)?\s*,\s*(\[.*?\]|nil)(?:%nat)?\s*\)', out, re.S)
       if not m or int(m.group(1)) != n:
         raise CoqError('cannot parse coqc output for %s:\n%s' % (path, out[-2000:]))
       body = m.group(2)
-      idx = [int(x) for x in re.findall(r'\d+', body)]
+      idx = [int(x) for x in re.findall(r'\d+', body.replace('%nat', ''))]
       failing.extend(k + i for i in idx)
     return sorted(failing)
   finally:
